@@ -4,21 +4,21 @@ import json, subprocess
 
 CLAIMED = {
  "C01": dict(level="exploration", design="4.1",
-   text="Seeded search over fault-injecting decoder sessions (all four option sets, 1-3 decoders, histories of accepted/rejected pictures, size changes, zero sizes, surplus macroblocks, extreme levels, corrupted/random bytes, split and trickled delivery, source I/O faults). Oracle: every call returns Ok or Err; a panic (overflow, index, slice, division, debug_assert - all live under the harness profile), a dead worker, an exhausted read-step budget or a watchdog timeout is a violation. Sampling gives evidence, not proof; the input space is unbounded so nothing stronger is available with this technique.",
+   text="Seeded search over fault-injecting decoder sessions (all four option sets, 1-3 decoders, histories of accepted/rejected pictures, size changes, zero sizes, surplus macroblocks, extreme levels, corrupted/random bytes, split and trickled delivery, source I/O faults). Oracle: every call returns Ok or Err; a panic (overflow, index, slice, division, debug_assert - all live under the harness profile), a dead worker, an exhausted read-step budget or a watchdog timeout is a violation. Adversarial structure (surplus macroblocks, zero / extreme sizes, references of another size, PLUSPTYPE header variety, unrestricted-vector ramps, floods of stuffing, start codes inside macroblock data) is generated alongside the random corruption. Process deaths and hangs are attributed to the run in flight. Sampling gives evidence, not proof; the input space is unbounded so nothing stronger is available with this technique.",
    note="Trusted: the harness profile turns every arithmetic overflow / OOB / div-by-zero into a caught panic; inputs declaring more than 2^22 luma samples are screened out (the property's own exclusion); the encoder's VLC tables are frozen from the pinned commit.",
    technique="deterministic simulation: seeded fault-injecting decoder sessions, no-crash / bounded-steps oracle"),
 
  "C03": dict(level="exploration", design="4.2",
    text="Step-wise refinement of the real decoder against an independent executable reconstruction model (candidate selection + median, differential wrap, chroma vector rounding, bilinear half-sample interpolation, edge clamping, dequantisation, f64 IDCT, clipping) over seeded histories I (P | truncated P | corrupted | cleanup)*, with truncation after any byte, chunked delivery and EINTR injected. Every accepted picture is compared sample for sample, starting each step from the real decoder's previous output. Seeded search, so evidence not proof; the space of P pictures x references is unbounded.",
-   note="Trusted: model P (written from the Recommendation), the frozen VLC tables, the stated rounding tolerance (counted per run). Histories contain no disposable pictures (C04 decides which picture is the reference).",
+   note="Trusted: model P (written from the Recommendation), the frozen VLC tables, the stated rounding tolerance (counted per run). Histories contain no disposable pictures (C04 decides which picture is the reference). Only predicted pictures are judged (intra reconstruction is C02, not claimed).",
    technique="deterministic simulation: seeded decoder histories with truncation/EINTR faults, refinement against an executable reference model"),
  "C04": dict(level="exploration", design="4.3",
    text="Seeded histories over {I, P, disposable P, rejected picture (corrupted, truncated in the header, I/O failure), clean-up} with arbitrary 8-bit temporal references (increasing, random, equal to the reference's, equal to the last picture's, wrapping), checked after every event against a reference-management model: get_last_picture() is the last accepted picture with exactly the header sent; rejected calls and clean-ups change nothing; every not-coded macroblock of a P/D picture is a copy of the last non-disposable accepted picture (with attribution of the picture actually used); a disposable picture is accepted and decoded exactly like the same bytes marked P in a decoder in the same state.",
-   note="The verdict uses only copies and equalities, never reconstruction arithmetic. The 'same state' decoder is rebuilt by replaying the accepted pictures. Standard mode has no disposable type.",
+   note="The verdict uses only copies and equalities, never reconstruction arithmetic, and the alarm is raised only for a positively attributed wrong reference. The 'same state' decoder is a fresh decoder taken through the identical call sequence on another thread. Standard mode has no disposable type. Includes histories of 258-320 pictures and an ultra-long sweep (65 600+ disposable pictures).",
    technique="deterministic simulation: seeded decoder histories with rejected pictures and I/O faults, reference-management model checked after every event"),
  "C05": dict(level="fault_enumeration", design="4.4",
    text="For each seeded scenario (history, valid victim picture, valid continuation) the faults are enumerated exhaustively: a hard I/O error at every source-read index (chained retries on the same reader), EINTR on every other read, every split point of the victim across two deliveries, one semantic poison per parsing depth (header, macroblock header, block data, prediction) and a sample of bit flips. After every failed call the decoder state must be bit-identical, the reader must still be at the start of the picture, the retry must equal a clean decode and the continuation must equal a twin decoder that never saw a failure.",
-   note="Twin oracle: the same decoder on both sides, so it decides atomicity/consistency, not absolute correctness. Splits the decoder legitimately accepts as an early-ended picture are counted, not judged.",
+   note="Twin oracle: the same decoder on both sides, so it decides atomicity/consistency, not absolute correctness. Splits the decoder legitimately accepts as an early-ended picture are counted, not judged. Also run on a reader reused from the previous picture, behind a user-consumed container tag, with short-reading sources, EINTR bursts and chains of rejected pictures.",
    technique="deterministic simulation: exhaustive fault-position enumeration per seeded scenario against a fault-free twin"),
  "C13": dict(level="exploration", design="4.5",
    text="Pipeline invariant evaluated after every accepted picture of seeded fault-injecting decoder sessions (valid, truncated-but-accepted and corrupted-but-accepted pictures, size changes) and of a width x height x quantizer sweep: plane sizes and chroma row length as documented, deblock of all three planes with the tabulated strength and yuv420_to_rgba complete without panic (preconditions live as debug_assert) and yield 4*w*h bytes. The weakest fit of the claimed properties: its failure cases are reached by the size swarm and header corruption, not by schedules.",
@@ -30,7 +30,7 @@ CLAIMED = {
    technique="deterministic simulation: seeded reader operation histories with late delivery and I/O faults against a bit-vector reference model"),
  "C15": dict(level="exploration", design="4.7",
    text="Differential twin over seeded streams: decoder A reads 1-6 concatenated valid pictures (any types, sizes changing at intra pictures, every end bit phase, fewer than eight zero pad bits) from one reader, delivered whole / at boundaries / with part of the following pictures, in chunks, with EINTR; twin B uses one reader per picture. Every call must agree in result, header and planes; calls on the exhausted stream must fail and change nothing.",
-   note="Twin oracle: the per-picture reader defines what a picture decodes to. Bytes are completely delivered before the call that needs them (partial availability is C05/C03).",
+   note="Twin oracle: the per-picture reader defines what a picture decodes to. Bytes are completely delivered before the call that needs them (partial availability is C05/C03). Streams are byte-padded or bit-contiguous; up to 80 pictures per reader in seeded runs and 66 000 in a sweep; two decoders may take turns on the reader; the user may commit / peek / parse in a look-ahead / clean up between calls.",
    technique="deterministic simulation: seeded multi-picture streams under varied delivery, differential twin (one reader vs one reader per picture)"),
  "C17": dict(level="exploration", design="4.8",
    text="Seeded worlds of 2-4 caller threads owning 3-8 decoder instances run under a baton scheduler owned by the simulator (one thread at a time, pre-emption at every source read and call boundary, successor from the plan's schedule, so interleavings replay exactly). Replicas must agree; every instance's history digest must equal the same history run alone; a sample of runs is re-executed in two further groups of fresh processes and must give identical digests. The thorough tier adds Miri many-seeds executions of a three-thread scenario (finer interleavings, data-race and UB detection).",
